@@ -51,30 +51,49 @@ REF = {
 
 
 def rule_gamma(ctx):
+    """One specialisation of gamma per constructor of Formula (and per connective): the result must be the published clause, however the
+    match is written (merged arms, inner matches on the connective, helper functions for the two-world case are all transparent)."""
     fx = ctx.facts
     b = fx.fn("gamma", impl_self=F)
     site = ctx.site(b)
-    v = sym.Eval(fx, inline_depth=0).function(b)
-    if v[0] != "match" or v[1] != SELF:
-        raise AnalysisGap("Gamma for Formula is not a match on self")
-    got = {a[0]: a[-1] for a in v[2]}
-    guards = [a for a in v[2] if len(a) == 3]
-    ctx.add("TAB-DISPATCH", "gamma:no-wildcard", "_" not in got and not guards, site, "no wildcard / guarded arm: %d arms" % len(got))
-    # coverage of the connective enums by the arm patterns
-    covered = set()
-    for k in got:
-        for c in fx.variants("syntax_tree::fol::sigma_0::BinaryConnective"):
-            if "BinaryConnective::" + c in k:
-                covered.add(c)
-    ctx.add("TAB-DISPATCH", "gamma:binary-connectives", covered == set(fx.variants("syntax_tree::fol::sigma_0::BinaryConnective")), site, "all binary connectives have an arm: %s" % sorted(covered))
-    ctx.add("TAB-DISPATCH", "gamma:unary-connectives", fx.variants("syntax_tree::fol::sigma_0::UnaryConnective") == ["Negation"], site, "negation is the only unary connective")
-    names = {"Formula::AtomicFormula(_)": "atomic", "Formula::UnaryFormula{connective: UnaryConnective::Negation}": "negation",
-             "Formula::BinaryFormula{connective: BinaryConnective::Conjunction | BinaryConnective::Disjunction}": "and-or",
-             "Formula::BinaryFormula{connective: BinaryConnective::Equivalence | BinaryConnective::Implication | BinaryConnective::ReverseImplication}": "implications",
-             "Formula::QuantifiedFormula{}": "quantifier"}
-    for k, ref in REF.items():
-        ctx.add("TPL", "gamma:" + names[k], got.get(k) == ref, site, "arm `%s` builds the published clause" % names[k], construct=got.get(k))
-    ctx.add("TPL", "gamma:arms", sorted(got) == sorted(REF), site, "exactly the five clauses of the definition")
+    S_ = "syntax_tree::fol::sigma_0::"
+
+    def ev(arg):
+        return sym.Eval(fx, inline_depth=0).function(b, [arg])
+
+    def c(name, **f):
+        return ("ctor", name, tuple(sorted(f.items())))
+    PL, PR, PF, PQ, PA = ("param", "$l"), ("param", "$r"), ("param", "$f"), ("param", "$q"), ("param", "$a")
+    # atomic
+    at = c("Formula::AtomicFormula", **{"0": PA})
+    ctx.add("TPL", "gamma:atomic", ev(at) == ("call", "Here::here", (at,)), site, "gamma(atomic) = here(atomic)", construct=ev(at))
+    # negation
+    uns = fx.variants(S_ + "UnaryConnective")
+    ctx.add("TAB-DISPATCH", "gamma:unary-connectives", uns == ["Negation"], site, "negation is the only unary connective")
+    for u in uns:
+        conn = c("UnaryConnective::" + u)
+        v = ev(c(UF, connective=conn, formula=PF))
+        ctx.add("TPL", "gamma:negation", v == c(UF, connective=conn, formula=T(PF)), site, "gamma(not F) = not there(F)", construct=v)
+    # binary connectives
+    bins = fx.variants(S_ + "BinaryConnective")
+    both = {"Conjunction", "Disjunction"}
+    two_worlds = {"Implication", "ReverseImplication", "Equivalence"}
+    ctx.add("TAB-DISPATCH", "gamma:binary-connectives", set(bins) == both | two_worlds, site, "binary connectives: %s" % sorted(bins))
+    for k in bins:
+        conn = c("BinaryConnective::" + k)
+        v = ev(c(BF, connective=conn, lhs=PL, rhs=PR))
+        if k in both:
+            ref = bin_(conn, G(PL), G(PR))
+            what = "gamma(F %s G) = gamma(F) %s gamma(G)" % (k, k)
+        else:
+            ref = bin_(("ctor", "BinaryConnective::Conjunction", ()), bin_(conn, G(PL), G(PR)), bin_(conn, T(PL), T(PR)))
+            what = "gamma(F %s G) = (gamma(F) %s gamma(G)) and (there(F) %s there(G))" % (k, k, k)
+        ctx.add("TPL", "gamma:%s" % ("and-or" if k in both else "implications") + ":" + k, v == ref, site, what, construct=v)
+    # quantifiers
+    v = ev(c(QFm, quantification=PQ, formula=PF))
+    ctx.add("TPL", "gamma:quantifier", v == c(QFm, formula=G(PF), quantification=PQ), site, "gamma(Q X F) = Q X gamma(F)", construct=v)
+    ctx.add("TAB-DISPATCH", "gamma:formula-variants", sorted(fx.variants(S_ + "Formula")) == ["AtomicFormula", "BinaryFormula", "QuantifiedFormula", "UnaryFormula"], site,
+            "constructors of Formula: %s" % fx.variants(S_ + "Formula"))
     th = fx.fn("gamma", impl_self="syntax_tree::fol::sigma_0::Theory")
     vt = sym.Eval(fx, inline_depth=0).function(th)
     ctx.add("TPL", "gamma:theory", vt == ("call", "Iterator::map", (SELF, ("fn", "gamma"))) or vt == ("call", "Iterator::map", (SELF, ("fn", "Gamma::gamma"))), ctx.site(th),
@@ -105,14 +124,50 @@ def rule_apply(ctx):
 def rule_prefix(ctx):
     fx = ctx.facts
     pp = fx.fn("gamma::prepend_predicate")
-    v = sym.Eval(fx, inline_depth=0).function(pp)
-    atom = ("proj", ("param", "formula"), (("Formula::AtomicFormula", "0"), ("AtomicFormula::Atom", "0")))
-    ref = ("call", "Apply::apply", (("param", "formula"), ("closure", ("formula",), ("match", ("param", "formula"), (
-        ("Formula::AtomicFormula(AtomicFormula::Atom(_))", ("ctor", "Formula::AtomicFormula", (("0", ("ctor", "AtomicFormula::Atom", (
-            ("0", ("upd", atom, "insert_str@predicate_symbol", (("lit", 0), ("param", "prefix")))),))),))),
-        ("_", ("param", "formula")))))))
-    ctx.add("FRESH-LIT", "prepend:every-atom", v == ref, ctx.site(pp),
-            "prepend_predicate inserts the prefix at index 0 of the predicate symbol of every atom (via Apply::apply) and changes nothing else", construct=v)
+    # the node transformer handed to Apply::apply, specialised on one node of every kind (so that `match`, `if let`, or an extracted helper
+    # that edits the atom in place all give the same result)
+    def transformer(arg):
+        ev = sym.Eval(fx, inline_depth=0)
+        ev.closure_args = [[arg]]
+        t = ev.function(pp, [("param", "$formula"), ("param", "$prefix")])
+        if t[:2] != ("call", "Apply::apply") or t[2][0] != ("param", "$formula"):
+            return None, t
+        f = t[2][1]
+        if f[0] == "closure":
+            return f[2], t
+        return None, t
+    ATOM = ("ctor", "Atom", (("predicate_symbol", ("param", "$p")), ("terms", ("param", "$ts"))))
+    node = ("ctor", "Formula::AtomicFormula", (("0", ("ctor", "AtomicFormula::Atom", (("0", ATOM),))),))
+    got, whole = transformer(node)
+    pref = ("upd", ("param", "$p"), "insert_str", (("lit", 0), ("param", "$prefix")))
+
+    def prefixed(t):
+        """t is the atom node with `insert_str(0, prefix)` applied to its predicate symbol (whichever way the update is recorded)"""
+        if t is None:
+            return False
+        r = repr(t)
+        if r.count("insert_str") != 1 or "('lit', 0), ('param', '$prefix')" not in r:
+            return False
+        # remove the update: the rest must be the original node
+        def strip_upd(x):
+            if isinstance(x, tuple) and x and x[0] == "upd" and str(x[2]).startswith("insert_str"):
+                return strip_upd(x[1])
+            if isinstance(x, tuple):
+                return tuple(strip_upd(y) for y in x)
+            return x
+        return strip_upd(t) == node
+    ctx.add("FRESH-LIT", "prepend:every-atom", prefixed(got), ctx.site(pp),
+            "the transformer applied by prepend_predicate (through Apply::apply, i.e. to every node) inserts the prefix at index 0 of an atom's predicate symbol and keeps its terms", construct=got)
+    others = {
+        "truth": ("ctor", "Formula::AtomicFormula", (("0", ("ctor", "AtomicFormula::Truth", ())),)),
+        "comparison": ("ctor", "Formula::AtomicFormula", (("0", ("ctor", "AtomicFormula::Comparison", (("0", ("param", "$c")),))),)),
+        "negation": ("ctor", UF, (("connective", ("param", "$u")), ("formula", ("param", "$f")))),
+        "binary": ("ctor", BF, (("connective", ("param", "$b")), ("lhs", ("param", "$l")), ("rhs", ("param", "$r")))),
+        "quantified": ("ctor", QFm, (("formula", ("param", "$f")), ("quantification", ("param", "$q")))),
+    }
+    for nm, n_ in others.items():
+        g_, _ = transformer(n_)
+        ctx.add("FRESH-LIT", "prepend:unchanged:" + nm, g_ == n_, ctx.site(pp), "a %s node is returned unchanged by the transformer (its children are visited by Apply::apply)" % nm, construct=g_)
     pre = {}
     for name in ("here", "there"):
         b = fx.fn(name, impl_self=F)
